@@ -90,6 +90,10 @@ func updateRules(version string, year string, contents []byte) ([]byte, error) {
 		}
 	}
 
+	if err := scanner.Err(); err != nil {
+		return nil, err
+	}
+
 	if err := writer.Flush(); err != nil {
 		return nil, err
 	}
